@@ -216,8 +216,8 @@ def ren_kind(kind, m):
 def run(ctx):
     out = common.Outcome()
     out.proof = common.proof_status(FAMILY, PROPFILE)
-    n_ren = ctx.scale(30, 600)
-    n_emb = ctx.scale(12, 250)
+    n_ren = ctx.scale(30, 350)
+    n_emb = ctx.scale(12, 120)
     cases, metas, seen = [], [], set()
     stats = {'rename': {'shapes': {}, 'codes_renamed': {}}, 'embed': {'economies': 0, 'with_external': 0}, 'solved_pairs': 0}
     # ---- (i) renaming
